@@ -956,7 +956,10 @@ class SubprocSpec:
         if fname is None:
             cmd0 = self.cmd[0] if self.cmd else None
             if cmd0 and _has_path_component(cmd0) and os.path.isfile(cmd0):
-                fname = os.path.abspath(cmd0)
+                # absolute, but not normalised: abspath() would collapse
+                # ``link/..`` lexically and name a different file than the
+                # kernel does when ``link`` is a symlink to a directory
+                fname = os.path.join(os.getcwd(), cmd0)
         if fname is None:
             return
         try:
